@@ -249,8 +249,11 @@ class GroupActivityCoefficients(ActivityCoefficients):
     
     def __new__(cls, chemicals):
         chemicals = tuple(chemicals)
-        if chemicals in cls._cached:
-            return cls._cached[chemicals]
+        # Group counts are part of the key: they can be re-assigned on a chemical
+        field = cls.group_name
+        key = (chemicals, tuple([tuple(getattr(i, field).items()) for i in chemicals]))
+        if key in cls._cached:
+            return cls._cached[key]
         else:
             self = super().__new__(cls)
         index, chemgroups = get_chemgroups(chemicals, self.group_name)
@@ -287,7 +290,7 @@ class GroupActivityCoefficients(ActivityCoefficients):
         for index in indices:
             for i in index:
                 group_mask[i, index] = True
-        self._cached[chemicals] = self
+        self._cached[key] = self
         self._chemicals = chemicals
         return self
     
